@@ -38,6 +38,7 @@ func propC18(w *World, r *Report) {
 	ef.RunByteCount(mod)
 	RunSortedBeforeIndexed(w, r, mod)
 	RunWriteTerm(w, r)
+	RunEOFProbe(w, r)
 	r.Floor("errdrop", 150)
 	r.Floor("bytecount", 8)
 	r.Floor("sortfirst", 5)
@@ -134,4 +135,70 @@ func usedInRem(v ssa.Value) bool {
 		}
 	}
 	return false
+}
+
+// RunEOFProbe: header.Read accepts a directory only after it has probed the
+// input at the largest table end.  The directory records are the only place
+// where a truncated file is noticed before the tables are read lazily (and a
+// table of length zero is never read at all), so the probe must lie on every
+// path to the success return; it may not depend on the shape of the last
+// table.
+func RunEOFProbe(w *World, r *Report) {
+	r.Rule("eofprobe: every path through header.Read to its success return passes a ReadAt on the input whose offset is computed from the table extents (End of an element of the sorted list): no condition on the tables lets the function accept the directory without the end-of-file probe")
+	fn := w.Func("header.Read")
+	if fn == nil || len(fn.Params) == 0 {
+		r.Fatal("eofprobe: header.Read does not resolve")
+		return
+	}
+	key := r.MkKey("eofprobe", "header.Read", "end-of-file probe")
+	probe := map[*ssa.BasicBlock]bool{}
+	var probePos token.Pos
+	for _, b := range fn.Blocks {
+		for _, in := range b.Instrs {
+			c, ok := in.(*ssa.Call)
+			if !ok || !c.Call.IsInvoke() || c.Call.Method.Name() != "ReadAt" || c.Call.Value != ssa.Value(fn.Params[0]) || len(c.Call.Args) < 2 {
+				continue
+			}
+			fromExtent := false
+			for v := range backSlice(c.Call.Args[1]) {
+				if fa, ok := v.(*ssa.FieldAddr); ok && fieldName(fa) == "End" {
+					fromExtent = true
+				}
+				if f, ok := v.(*ssa.Field); ok && fieldName(f) == "End" {
+					fromExtent = true
+				}
+			}
+			if fromExtent {
+				probe[b] = true
+				probePos = c.Pos()
+			}
+		}
+	}
+	if len(probe) == 0 {
+		r.Fail("eofprobe", key, w.Pos(fn.Pos()), "header.Read makes no ReadAt at an offset computed from a table end: a file that is cut inside (or before) its last tables is accepted", nil)
+		return
+	}
+	// success returns reachable from the entry without passing a probe block
+	seen := map[*ssa.BasicBlock]bool{}
+	var bad *ssa.Return
+	var walk func(b *ssa.BasicBlock)
+	walk = func(b *ssa.BasicBlock) {
+		if seen[b] || probe[b] || bad != nil {
+			return
+		}
+		seen[b] = true
+		if rt, ok := b.Instrs[len(b.Instrs)-1].(*ssa.Return); ok && len(rt.Results) == 2 && isNilConst(rt.Results[1]) && !isNilConst(rt.Results[0]) {
+			bad = rt
+			return
+		}
+		for _, s := range b.Succs {
+			walk(s)
+		}
+	}
+	walk(fn.Blocks[0])
+	if bad != nil {
+		r.Fail("eofprobe", key, w.Pos(bad.Pos()), "the success return can be reached without the end-of-file probe at "+w.Pos(probePos)+": for some table layouts (an empty last table) a truncated file is accepted", nil)
+		return
+	}
+	r.OK("eofprobe", key, w.Pos(probePos), "the probe lies on every path to the success return")
 }
